@@ -578,6 +578,10 @@ impl History {
                     let r = if self.model.is_live(link) && self.stale_disconnect_targets.contains(&link) {
                         self.model.observe_closed(link, "stale-disconnect")
                     } else {
+                        let client = self.model.conns[link].client.clone();
+                        if self.model.sessions.get(&client).map(|s| s.saved).unwrap_or(false) {
+                            self.corner("refused-connect-with-saved-session");
+                        }
                         self.model.connect_outcome(link, false)
                     };
                     self.records.extend(r);
